@@ -16,7 +16,7 @@ export GOFLAGS=-mod=mod GOPROXY=off GOSUMDB=off GOTOOLCHAIN=local
 $W/$engine -seed $seed -n $n -out $W/cases >/dev/null
 (cd $W/cases && for f in shard_*.v; do coqc -Q /verif/coq QF $f > $f.out 2>&1 & done; wait)
 echo "== coq results (non-empty only):"
-cat $W/cases/shard_*.out | tr '\n' ' ' | sed 's/results = \[\] *: list (N \* N)//g' | head -c 1200; echo
+cat $W/cases/shard_*.out | tr '\n' ' ' | grep -o '([0-9]*, [0-9]*)' | sort -u | tr '\n' ' '; echo
 python3 - <<P
 import json
 m=json.load(open('$W/cases/meta.json'))
